@@ -51,7 +51,36 @@ Exits(k) == IF k <= 4 THEN 0..(Pow2(k) - 1)
             ELSE IF k = 8 THEN {0, 1, 2, 3, 127, 128, 129, 254, 255}
             ELSE {0, 1, 255, 256, 65535}
 
-FWFamilies == {[k |-> k, poisoned |-> p] : k \in Widths, p \in BOOLEAN}
+FWFamilies == {[k |-> k, poisoned |-> p] : k \in Widths, p \in BOOLEAN} \cup {[k |-> k, shape |-> "count"] : k \in Widths}
+
+\* a loop whose body never looks at the counter: it counts its own iterations in the accumulator and leaves when the
+\* count reaches the limit passed as context (the number of iterations is then observable although i is unused)
+CountBody(k) ==
+  LET w == AccW(k) IN
+  IFn("body", <<Param("acc", TU(w)), Param("lim", TU(w)), Param("i", TU(k))>>, <<TEither(TU(w), TU(w))>>,
+      BlkE(<<>>, EMatch(JetE(JetW("eq", w), <<V("acc"), V("lim")>>),
+                        <<Arm(MTrue, ELeft(V("acc"))),
+                          Arm(MFalse, BlkE(<<SLet(PTup(<<PIgn, PId("s")>>), TTup(<<TBool, TU(w)>>),
+                                                   JetE(JetW("add", w), <<V("acc"), Dec(1)>>))>>, ERight(V("s"))))>>)))
+CountLimits(k) == IF k <= 2 THEN 0..(Pow2(k) + 2) ELSE {0, 1, 2, 3, Pow2(k) - 1, Pow2(k), Pow2(k) + 1, Pow2(k) + 2}
+RefCount(k, lim) ==
+  LET items == <<CountBody(k), Main(Blk(<<>>))>>
+      m == MainCtx(items, G0)
+      C == [fns |-> m.G.fns, al |-> m.G.al, wit |-> EmptyFn, args |-> EmptyFn, env |-> DummyEnv]
+      w == AccW(k)
+  IN WhileLoop(m.G.fns["body"], VU(BitsOfNat(1, w)), VU(BitsOfNat(lim, w)), 0, k, C)
+CountProgram(k) ==
+  LET w == AccW(k)
+      tr == TEither(TU(w), TU(w))
+      items == <<CountBody(k),
+                 Main(Blk(<<SLet(PId("c"), TU(w), EWit("CTX")),
+                            SLet(PId("r"), tr, ECall(CForWhile("body"), <<Dec(1), V("c")>>)),
+                            SLet(PId("x"), tr, EWit("EXP"))>> \o Obs(tr, "r", "x")))>>
+      lims == SetToSeq(CountLimits(k))
+      pt(lim, good) == LET v == RefCount(k, lim) IN
+                       ("CTX" :> VU(BitsOfNat(lim, w))) @@ ("EXP" :> IF good THEN v ELSE IF v.k = "vleft" THEN VRight(v.v) ELSE VLeft(v.v))
+  IN [items |-> items, wdecls |-> <<<<"CTX", TU(w)>>, <<"EXP", tr>>>>, args |-> EmptyFn,
+      space |-> [i \in 1..(2 * Len(lims)) |-> pt(lims[(i + 1) \div 2], i % 2 = 1)]]
 
 RefLoop(k, poisoned, en, x) ==
   LET items == <<MixFn(AccW(k)), Body(k, poisoned), Main(Blk(<<>>))>>
@@ -76,5 +105,5 @@ FWProgram(k, poisoned) ==
       space |-> [i \in 1..(2 * Len(exits)) |-> pt(TRUE, exits[(i + 1) \div 2], i % 2 = 1)]
                 \o <<pt(FALSE, 0, TRUE), pt(FALSE, 0, FALSE)>>]
 
-FWProgramsOf(f) == {FWProgram(f.k, f.poisoned)}
+FWProgramsOf(f) == IF "shape" \in DOMAIN f THEN {CountProgram(f.k)} ELSE {FWProgram(f.k, f.poisoned)}
 =============================================================================
